@@ -207,6 +207,15 @@ fn check_cfg(ctx: &Ctx, ws: &mut Workers, c: &Case19, counting: bool, cfg: &Conf
         if l2v > l1v + slack || l2c > l1c + slack || l1v > l0v + slack + 64 || l1c > l0c + slack + 64 {
             return Err(Failure::new(format!("c19:live-slots-grow:{}", key), format!("{}{}\nthe number of live slots grows with the iteration count (allowed slack {})", shown, table, slack)));
         }
+        if c.period == 0 && (st3[2][0] > 60_000_000 || st3[2][3] > 60_000_000) {
+            // natural collections double a free list ten times and then compact it: with a small live set
+            // its size never exceeds 2^10 chunks of 25 600 slots (2.6*10^7); beyond twice that it is not
+            // being compacted (only long thorough runs allocate enough to get here)
+            return Err(Failure::new(
+                format!("c19:heap-size-grows:{}", key),
+                format!("{}{}\na free list has more than 6*10^7 slots although the live set is bounded: it is never compacted", shown, table),
+            ));
+        }
         if c.period > 0 {
             // forced collections do not double a mostly empty heap, so its size stays put too
             // (a list may still be extended by one chunk of 25600 slots when it fills up between two forced collections)
